@@ -475,7 +475,8 @@ func (r *Rig) HostState(id types.FileContractID) (rhp4.RevisionState, error) {
 // A Stream is one raw RHP4 stream to the host.
 type Stream struct {
 	net.Conn
-	t *PipeTransport
+	t    *PipeTransport
+	done chan struct{} // closed when the host's handler of this stream has returned
 }
 
 func (r *Rig) Open() *Stream {
@@ -483,8 +484,14 @@ func (r *Rig) Open() *Stream {
 	if err != nil {
 		panic(err)
 	}
+	// the raw renter waits for its own stream only (another stream of its may be in the middle
+	// of a multi-round RPC)
+	r.T.mu.Lock()
+	done := r.T.pending[len(r.T.pending)-1]
+	r.T.pending = r.T.pending[:len(r.T.pending)-1]
+	r.T.mu.Unlock()
 	c.SetDeadline(time.Now().Add(20 * time.Second))
-	return &Stream{Conn: c, t: r.T}
+	return &Stream{Conn: c, t: r.T, done: done}
 }
 
 func (s *Stream) Request(id types.Specifier, o proto4.Object) error {
@@ -496,7 +503,11 @@ func (s *Stream) Recv(o proto4.Object) error { return proto4.ReadResponse(s, o) 
 // End closes the stream and waits until the host's handler has returned.
 func (s *Stream) End() {
 	s.Conn.Close()
-	s.t.WaitIdle()
+	select {
+	case <-s.done:
+	case <-time.After(30 * time.Second):
+		panic("rhpx: host handler did not finish within 30s")
+	}
 }
 
 // ErrClass maps an error returned by the host (or the transport) to a small enum.
